@@ -262,8 +262,13 @@ def run_show(tid, desc, objs, meta, show_args, show_kwargs, kappa, backend, call
                 datas = [fr.data for fr in fig.frames] if (anim and fig.frames) else [fig.data]
                 inds = [int(fr.name) - 1 for fr in fig.frames] if (anim and fig.frames) else [-1]
             else:
-                axes = [a for a in fig.axes if getattr(a, "name", "") == "3d"]
-                ax = axes[k] if len(axes) > k else None
+                ax = None
+                for a in fig.axes:
+                    if getattr(a, "name", "") != "3d":
+                        continue
+                    nr, nc, start, _ = a.get_subplotspec().get_geometry()
+                    if start == (rc[0] - 1) * nc + (rc[1] - 1) or (nr == 1 and nc == 1):
+                        ax = a
                 ann, pw = parse_unit(ax.get_xlabel()) if ax is not None else ("", None)
                 same = ax is not None and all(parse_unit(g())[0] == ann for g in (ax.get_ylabel, ax.get_zlabel))
                 datas, inds = [None], [-1]
@@ -389,7 +394,7 @@ def structural(tid, name, kidx, backend="plotly"):
             args = [coll]
         if name == "collection_moved":
             # compound motion: the children follow; their poses are read back on the lattice
-            coll.move(kappa.length((0, 0, 2)))
+            coll.move(kappa.length(kappa.vec((0, 0, 2))))
             coll.rotate(mat_to_rot(kappa.RG.as_matrix() @ np.array(RZ, float) @ kappa.RG.inv().as_matrix()), anchor=kappa.pos((0, 0, 0)))
             for n in meta:
                 meta[n]["path"] = lattice_path_of(objs[n], kappa)
@@ -459,6 +464,37 @@ def structural(tid, name, kidx, backend="plotly"):
         meta["t"] = {"cls": "TriangularMesh", "geom": {"dim": [], "verts": [[-1, -1, 0], [2, 0, 0], [0, 2, 0], [0, 0, 3]]}, "path": P2,
                      "sel": DEF_SEL, "bare": True, "pathshown": True, "rc": [1, 1]}
         args = [o]
+    elif name == "mesh_disconnected":
+        # two separate tetrahedra in one mesh, disconnected parts displayed (show() swaps the faces temporarily)
+        V = [[-1, -1, 0], [2, 0, 0], [0, 2, 0], [0, 0, 3], [4, -1, 0], [7, 0, 0], [5, 2, 0], [5, 0, 3]]
+        F = [(0, 2, 1), (0, 1, 3), (0, 3, 2), (1, 2, 3), (4, 6, 5), (4, 5, 7), (4, 7, 6), (5, 6, 7)]
+        o = m.magnet.TriangularMesh(vertices=kappa.length(V), faces=F, polarization=(1, 2, 3), position=[kappa.pos(p["p"]) for p in P2],
+                                    orientation=kappa.rot([p["r"] for p in P2]), check_disconnected="ignore")
+        make_bare(o)
+        o.style.mesh.disconnected.show = True
+        o.style.path.frames = 1
+        objs["t"] = o
+        meta["t"] = {"cls": "TriangularMesh", "geom": {"dim": [], "verts": V}, "path": P2, "sel": {"kind": "int", "n": 1, "l": []},
+                     "bare": False, "pathshown": True, "rc": [1, 1]}
+        args = [o]
+    elif name == "subplots_same_object":
+        a = add("a", "Cuboid", G_CUB, P3, bare=True, rc=(1, 1))
+        b = add("b", "Cylinder", G_CYL, P2, bare=True, rc=(1, 2))
+        d1 = {"objects": [a], "col": 1}
+        d2 = {"objects": [a, b], "col": 2}
+        # the same object in two subplots: judged in the second one together with b, in the first one alone
+        objs["a2"] = a
+        meta["a2"] = dict(meta["a"], rc=[1, 2])
+        args = [d1, d2]
+        caller["dict1"], caller["dict2"] = d1, d2
+        unit_by_rc = {(1, 1): "auto", (1, 2): "auto"}
+    elif name == "animation_downsampled":
+        P7 = [{"p": [k, 0, k % 2], "r": (RZ if k % 2 else I3)} for k in range(7)]
+        a = add("a", "Cuboid", G_CUB, P7, bare=True)
+        b = add("b", "Polyline", G_POLY, P2, bare=True)
+        anim = True
+        kw.update(animation=True, animation_maxframes=3)
+        args = [a, b]
     elif name == "extra_model3d":
         a = add("a", "Cuboid", G_CUB, P3, bare=False)
         tr = {"backend": "generic", "constructor": "scatter3d", "kwargs": {"x": kappa.length([0.0, 1.0]), "y": kappa.length([0.0, 0.0]), "z": kappa.length([0.0, 2.0]), "mode": "markers"}}
@@ -468,13 +504,15 @@ def structural(tid, name, kidx, backend="plotly"):
         args = [a]
     else:
         raise KeyError(name)
-    kw.setdefault("units_length", "m")
+    if unit_by_rc is None:
+        kw.setdefault("units_length", "m")
     desc = {"kind": "struct", "path": name, "sel": "-", "unit": kw.get("units_length", "m"), "how": "-", "decor": "-", "kappa": kidx, "lam": f"{kappa.lam:.3e}"}
     return run_show(tid, desc, objs, meta, args, kw, kappa, backend, caller, unit_req_by_rc=unit_by_rc, anim=anim)
 
 
 STRUCT = ["collection", "nested", "collection_moved", "animation", "animation_slider", "subplots_rowcol", "subplots_dict", "style_kwargs",
-          "path_hidden", "pending_style", "markers_zoom", "mesh_unchecked", "extra_model3d"]
+          "path_hidden", "pending_style", "markers_zoom", "mesh_unchecked", "extra_model3d", "mesh_disconnected", "subplots_same_object",
+          "animation_downsampled"]
 
 
 def worker(args):
